@@ -604,9 +604,11 @@ class Server(service.MultiService):
         for app_id in sorted(self.get_all_apps()):
             log.msg(" app prune checking %r" % (app_id,))
             app = self.get_app(app_id)
-            in_use = app.prune(now, old)
-            if not in_use:
-                del self._apps[app_id]
+            # Do not forget the AppNamespace afterwards, even if it holds no
+            # Mailbox objects right now: a connection that is bound to this
+            # app but has not opened a mailbox yet still refers to it, and
+            # must end up on the same Mailbox object as later connections.
+            app.prune(now, old)
         log.msg("app prune ends, %d apps" % len(self._apps))
 
     def dump_stats(self, now, rebooted):
